@@ -75,9 +75,14 @@ def funding(spk, value=100000):
     return t
 
 
-def spending_skeleton(fund, rng, nout=1):
+def spending_skeleton(fund, rng, nout=1, extra_inputs=0, our_index=0):
     outs = [T.TxOut(90000 - 1000 * k, bytes([0x76, 0xa9, 0x14]) + rng.bytes(20) + bytes([0x88, 0xac])) for k in range(nout)]
-    return T.Tx(2, [T.TxIn(fund.txid(), 0, b"", rng.choice([0xffffffff, 0xfffffffe, 5]))], outs, rng.choice([0, 0, 500000]))
+    vin = [T.TxIn(fund.txid(), 0, b"", rng.choice([0xffffffff, 0xfffffffe, 5]))]
+    for j in range(extra_inputs):
+        # other people's inputs (legacy sighashes cover them; btcdeb does not need their funding transactions)
+        other = T.TxIn(rng.bytes(32), rng.below(3), S.push(rng.bytes(71)) + S.push(rng.bytes(33)), 0xffffffff)
+        vin.insert(0 if j < our_index else len(vin), other)
+    return T.Tx(2, vin, outs, rng.choice([0, 0, 500000]))
 
 
 def filler(rng, n):
@@ -139,13 +144,18 @@ def make(rng, kind=None):
     kind = kind or rng.weighted([(3, "p2pkh"), (2, "multisig"), (3, "p2sh-multisig"), (2, "p2sh-generic"), (1, "p2sh-empty"), (2, "legacy-codesep"), (2, "p2wpkh"),
                                  (1, "p2sh-p2wpkh"), (4, "p2wsh"), (2, "p2sh-p2wsh"), (2, "p2tr"), (7, "tapscript")])
     opts = []
+    select = None
     if kind == "p2pkh":
         k = rng.below(len(KEYS))
         spk = bytes([0x76, 0xa9, 0x14]) + T.hash160(pub(k)[0]) + bytes([0x88, 0xac])
         fund = funding(spk)
-        tx = spending_skeleton(fund, rng, rng.range(1, 2))
-        sig = ecc.ecdsa_sign(KEYS[k], sighash_legacy(tx, 0, spk))
-        tx.vin[0].script_sig = S.push(sig) + S.push(pub(k)[0])
+        extra = rng.weighted([(6, 0), (2, 1), (2, 2)])
+        ours = rng.below(extra + 1)
+        tx = spending_skeleton(fund, rng, rng.range(1, 2), extra, ours)
+        sig = ecc.ecdsa_sign(KEYS[k], sighash_legacy(tx, ours, spk))
+        tx.vin[ours].script_sig = S.push(sig) + S.push(pub(k)[0])
+        if extra and rng.chance(50):
+            select = ours
     elif kind in ("multisig", "p2sh-multisig"):
         n = rng.range(1, 3)
         m = rng.range(1, n)
@@ -246,7 +256,10 @@ def make(rng, kind=None):
             tx.vin[0].witness.append(annex)
     else:
         raise ValueError(kind)
-    return {"tx": tx.ser().hex(), "txin": fund.ser().hex(), "kind": kind, "opts": opts}
+    out = {"tx": tx.ser().hex(), "txin": fund.ser().hex(), "kind": kind, "opts": opts}
+    if select is not None:
+        out["select"] = select
+    return out
 
 
 def make_nosig(wrap, script, items, depth=1):
